@@ -32,6 +32,9 @@ TEXT = {
  "C09": dict(technique="fault injection at the SQL-driver seam (fail / cancel statement k for every k), table-dump equality before/after, notification observers, retry-equivalence against a fault-free twin",
    text="Fault enumeration: for each of 33 mutating operations in 2 (quick) / 6 (thorough) prepared states, every statement position k (BEGIN, each statement, COMMIT) is failed with a driver error and, separately, hit by a context cancellation, on the same database; after each failed attempt the five tables must be byte-identical (pull family: modulo subscriptions.expires_at), no publish/modify waiter may have been woken, and the final fault-free retry must have exactly the effect of a fault-free twin. Complete over the listed (operation, state, k, mode) grid; the grid itself is finite and listed in the evidence.",
    note="Trusted base: SQLite's atomic commit, the seam driver (harness/seam), canonical dumps (harness/rig/dump.go). Streams are checked per internal transaction (acks / deadline changes) because the stream's sender keeps fetching concurrently. One genuine defect (delay-injector answers 200 on commit failure) is a known finding."),
+ "C10": dict(technique="quiescence monitor in virtual time over a grid of transaction-boundary schedules; Go race detector",
+   text="Exploration of schedules: the writer's commit (and its commit->notify gap) is placed in every gap between the waiter's register / check / wait steps by virtual delays at transaction boundaries; after the writer returned, the waiter must have returned a message at quiescence within its own scheduled delays, i.e. without any timer. 7 writer kinds x waiter kinds (Pull, StreamingPull) x fresh/warm notifier state; built with -race.",
+   note="Trusted base: testing/synctest quiescence semantics; the seam's boundary delays. Only in-process notification (SQLite) is executed; PostgreSQL LISTEN/NOTIFY is not. One defect found this way was repaired (fix: WakePublishListeners)."),
  "C13": dict(technique="reference-model monitor: expected backlog after seek (set equality via probe pulls and drain)",
    text="Exploration: histories of publish / pull / partial ack / snapshot / more traffic / seek to past, present, future times and to own snapshots, repeated seeks, then probes and a drain; what is outstanding afterwards must equal the model's backlog (missing => seek-revived-missing, extra => delivered-after-seek-past).",
    note=_HIST_NOTE + " 'Retained' is read from the deliveries table (pruned rows are documented as not resurrected). Sibling-subscription snapshots, dead-letter subscriptions under seek and revival of completed-and-expired messages are unspecified."),
